@@ -28,6 +28,15 @@ func foreignControllerTests(fn *ssa.Function) []foreignController {
 	for _, g := range calls(fn, metaGetController) {
 		fc := foreignController{Get: g, Of: flow.Root(underIface(cfgx.CallArgs(g)[0]))}
 		gv := g.Value()
+		// the tests as booleans: those that are true when the object is ours (== forms)
+		// and those that are true when it may be foreign (!= forms)
+		var oursVals, foreignVals []ssa.Value
+		defer func(i int) {
+			// a named boolean combining the tests: `ours := c == nil || c.UID == uid`,
+			// `foreign := c != nil && c.UID != uid`, and their negations
+			out[i].Ours = append(out[i].Ours, boolDisjTrueEdges(fn, oursVals)...)
+			out[i].Ours = append(out[i].Ours, boolConjFalseEdges(fn, foreignVals)...)
+		}(len(out))
 		for _, b := range fn.Blocks {
 			for _, in := range b.Instrs {
 				bo, ok := in.(*ssa.BinOp)
@@ -37,6 +46,11 @@ func foreignControllerTests(fn *ssa.Function) []foreignController {
 				// nil test of the controller pointer
 				if (bo.X == gv && cfgx.IsNilConst(bo.Y)) || (bo.Y == gv && cfgx.IsNilConst(bo.X)) {
 					t, f := cfgx.CondEdges(bo)
+					if bo.Op == token.NEQ {
+						foreignVals = append(foreignVals, bo)
+					} else {
+						oursVals = append(oursVals, bo)
+					}
 					if bo.Op == token.NEQ {
 						fc.Ours = append(fc.Ours, f...)
 						fc.NoCtrl = append(fc.NoCtrl, f...)
@@ -62,6 +76,11 @@ func foreignControllerTests(fn *ssa.Function) []foreignController {
 							fc.Owner = flow.Root(underIface(r))
 						}
 					}
+				}
+				if bo.Op == token.NEQ {
+					foreignVals = append(foreignVals, bo)
+				} else {
+					oursVals = append(oursVals, bo)
 				}
 				t, f := cfgx.CondEdges(bo)
 				if bo.Op == token.NEQ {
